@@ -79,7 +79,10 @@ func TestEndToEndHonest(t *testing.T) {
 				{
 					synctest.Test(t, func(rt *testing.T) {
 						client := keys.Get(ct, 0)
-						w := newWorld(rt, [2]srvConf{{st, time.Minute, tlsMode}, {st, time.Minute, tlsMode}}, []*keys.Identity{client})
+						// the secret mode rotates with the enumeration index: provided / shared / left unset (the default
+						// configuration of an application that sets no HmacKey)
+						sm := secretMode(idx % 3)
+						w := newWorld(rt, twoServers(srvConf{keyType: st, ttl: time.Minute, tls: tlsMode, secret: sm}, srvConf{keyType: st, ttl: time.Minute, tls: tlsMode, secret: sm}), []*keys.Identity{client})
 						s := w.srv[0]
 						pt := &passThrough{w: w, s: s}
 						ca := &httppeeridauth.ClientPeerIDAuth{PrivKey: client.Priv, TokenTTL: time.Hour}
@@ -125,7 +128,7 @@ func TestEndToEndHonest(t *testing.T) {
 						do("bearer>s2>bearer")                // rejected token -> server-initiated flow
 					})
 				}
-				stats.CaseEnumerated(name, false, "client:"+ct, "server:"+st)
+				stats.CaseEnumerated(name, false, "client:"+ct, "server:"+st, "srvsecret:"+secretNames[idx%3])
 			}
 		}
 	}
